@@ -647,6 +647,17 @@ impl<T: Transport + 'static> SyncEngine<T> {
                 .collect();
             deletions.retain(|d| !working_files.contains(&d.dest_path));
 
+            // An entry that the source scan does not list although it is there -- hidden by an ignore
+            // rule (a .gitignore in a repository, a .ignore file that the destination does not have
+            // yet) -- has its counterpart: it is not stale. (Only what a filter kept out was spared;
+            // these were deleted.) Checked where the source is on the local file system.
+            if std::fs::symlink_metadata(source).is_ok() {
+                deletions.retain(|d| match d.dest_path.strip_prefix(destination) {
+                    Ok(rel) => std::fs::symlink_metadata(source.join(rel)).is_err(),
+                    Err(_) => true,
+                });
+            }
+
             // Apply deletion safety checks
             if !deletions.is_empty() && !self.force_delete {
                 let dest_file_count = scanner::Scanner::new(destination)
